@@ -9,7 +9,10 @@ use vcommon::runtime::{guarded, run_cases, Args, Recorder};
 
 type Key = (String, String);
 
-const SINGLETONS: &[&str] = &["A2ML", "MOD_COMMON", "MOD_PAR", "VARIANT_CODING"];
+/// singletons that sort_new_items() places at the head of the module when they are new (a rule of
+/// the library that the property neither demands nor forbids): not part of the order comparison.
+/// VARIANT_CODING is different: a new one has no placed element of its kind and belongs at the end.
+const SINGLETONS: &[&str] = &["A2ML", "MOD_COMMON", "MOD_PAR"];
 
 fn push_new(rng: &mut Rng, m: &mut Module, n: u32) -> Key {
     let name = format!("zznew_{n}");
@@ -106,6 +109,7 @@ fn keys_of(a2l: &A2lFile) -> Result<Vec<Key>, String> {
         .unwrap_or_default()
         .into_iter()
         .filter(|(k, _)| !SINGLETONS.contains(&k.as_str()) && k != "IF_DATA" && k != "USER_RIGHTS")
+        .map(|(k, n)| if k == "VARIANT_CODING" { (k, String::new()) } else { (k, n) })
         .collect())
 }
 
@@ -206,7 +210,11 @@ fn history(rng: &mut Rng, rec: &mut Recorder, len: usize, size: usize, label: &s
         universe: (size * 3).max(12),
         ..ModCfg::default()
     };
-    let a0 = wrap(Gen::new(rng, cfg).module("m"));
+    let mut a0 = wrap(Gen::new(rng, cfg).module("m"));
+    if rng.coin() {
+        // half of the destination files have no VARIANT_CODING, so that a merge can bring one
+        a0.project.module[0].variant_coding = None;
+    }
     let mut a = match as_loaded(&a0) {
         Ok(a) => a,
         Err(e) => {
@@ -260,7 +268,23 @@ fn history(rng: &mut Rng, rec: &mut Recorder, len: usize, size: usize, label: &s
                     ..ModCfg::default()
                 };
                 let mut b = wrap(Gen::new(rng, cfg).module("mb"));
-                let before = keys_of(&b).unwrap_or_default();
+                if rng.chance(2, 3) {
+                    // the merged file was loaded from text: its elements carry the uids and line
+                    // numbers of their own file
+                    if let Ok(l) = as_loaded(&b) {
+                        b = l;
+                        rec.bump("merge.loaded_file");
+                    }
+                } else {
+                    rec.bump("merge.api_built_module");
+                }
+                let mut before = keys_of(&b).unwrap_or_default();
+                if a.project.module[0].variant_coding.is_some() {
+                    // A keeps its own VARIANT_CODING, B's is not moved
+                    before.retain(|k| k.0 != "VARIANT_CODING");
+                } else if before.iter().any(|k| k.0 == "VARIANT_CODING") {
+                    rec.bump("merge.brings_variant_coding");
+                }
                 let r = guarded(|| a.merge_modules(&mut b));
                 if let Err((sig, detail)) = r {
                     rec.violation(&format!("{sig} in merge_modules"), &detail, witness(&ops_done));
@@ -428,7 +452,7 @@ fn k_sweep(rng: &mut Rng, rec: &mut Recorder, size: usize, k: usize) {
 
 pub fn run(args: &Args, rec: &mut Recorder) {
     rec.rule = "evaluation = one step of a history over {push new element, merge another module, sort_new_items, write}; after every sort_new_items / write the order of the /begin lines of the written file is compared with an order model (placed elements keep their relative order; new elements of a kind form one run directly after the last placed element of their kind, or come after all placed elements if there is none); every step runs under the panic monitor with overflow checks. distinct_nontrivial = distinct histories by hash of the operation sequence".into();
-    rec.assumptions.push("merged modules use disjoint names (no renames); singletons brought by a merge (A2ML, MOD_COMMON, MOD_PAR, VARIANT_CODING), IF_DATA and USER_RIGHTS are excluded from the order comparison; the order inside a run of new elements is not constrained".into());
+    rec.assumptions.push("merged modules use disjoint names (no renames); singletons brought by a merge that the library places at the head of the module (A2ML, MOD_COMMON, MOD_PAR), IF_DATA and USER_RIGHTS are excluded from the order comparison; a VARIANT_CODING brought by a merge is judged like any new element without a placed element of its kind (at the end); the order inside a run of new elements is not constrained".into());
     let n_hist: u64 = if args.thorough { 40_000 } else { 1_500 };
     let max_len = if args.thorough { 400 } else { 100 };
     let n_sweeps = 9u64;
